@@ -193,7 +193,7 @@ def src_len_item(ex, src, i, st):
         h = st.heap[src[1].ref]
         k = wrap(h.keys[i], h.ktype)
         # a true fact the sequence solvers do not find by themselves: the i-th key is a key
-        st.assume(z3.Implies(z3.And(i >= 0, i < z3.Length(h.keys)), z3.Contains(h.keys, z3.Unit(h.keys[i]))))
+        st.assume(z3.Implies(z3.And(i >= 0, i < z3.Length(h.keys)), z3.Select(memof(h.keys), h.keys[i])))
         ci = const_int(i)
         if ci is not None:
             for j in range(ci):      # dict keys are pairwise distinct
